@@ -11,6 +11,22 @@ from ..report import Check
 from .common import calls_in, guards_of, local_assignments, need_locals, returns_of
 
 
+def _is_descending(s: ast.AST) -> bool:
+    """sorted(x, reverse=True) | reversed(sorted(x)) | list(reversed(sorted(x))) | sorted(x)[::-1]"""
+    if isinstance(s, ast.Call) and last_attr(s) in ("list", "tuple") and len(s.args) == 1:
+        return _is_descending(s.args[0])
+    if isinstance(s, ast.Call) and last_attr(s) == "sorted":
+        rev = kw(s, "reverse")
+        return isinstance(rev, ast.Constant) and rev.value is True
+    if isinstance(s, ast.Call) and last_attr(s) == "reversed" and len(s.args) == 1:
+        a = s.args[0]
+        return isinstance(a, ast.Call) and last_attr(a) == "sorted" and kw(a, "reverse") is None
+    if isinstance(s, ast.Subscript) and isinstance(s.slice, ast.Slice) and s.slice.lower is None and s.slice.upper is None and norm(s.slice.step or ast.Constant(1)) == "-1":
+        a = s.value
+        return isinstance(a, ast.Call) and last_attr(a) == "sorted" and kw(a, "reverse") is None
+    return False
+
+
 def r16_ab(prog: Program, chk: Check) -> None:
     chk.rule("R16.a", "deletions run high-to-low: the loop that executes `del lines[i - 1]` iterates sorted(..., reverse=True)", floor=2)
     chk.rule("R16.b", "the additions are spliced after the last deleted line before the deletions run, so no deletion index is disturbed", floor=2)
@@ -31,14 +47,12 @@ def r16_ab(prog: Program, chk: Check) -> None:
         it = loop.iter
         srcs = [it] if not isinstance(it, ast.Name) else local_assignments(fn, it.id)
         for s in srcs:
-            if isinstance(s, ast.Call) and last_attr(s) == "sorted":
-                rev = kw(s, "reverse")
-                if isinstance(rev, ast.Constant) and rev.value is True:
-                    src_ok = True
+            if _is_descending(s):
+                src_ok = True
         # the iterated name must not be re-bound to anything unsorted after the sort
         if isinstance(it, ast.Name):
             last = sorted(local_assignments(fn, it.id), key=lambda a: a.lineno)
-            src_ok = src_ok and isinstance(last[-1], ast.Call) and last_attr(last[-1]) == "sorted"
+            src_ok = src_ok and _is_descending(last[-1])
     chk.ob("R16.a", "node_visitor::BaseNodeVisitor._apply_changes_to_lines::delete-uses-1-based-index", ok, site, "the deletion must be `del lines[lineno - 1]` (linenos_to_delete is 1-based)")
     chk.ob("R16.a", "node_visitor::BaseNodeVisitor._apply_changes_to_lines::descending", src_ok, site, "deleting by index must iterate the line numbers in descending order (sorted(..., reverse=True)); any other order shifts the remaining indices")
     # splice at max(lines_to_remove) before the deletion loop
